@@ -46,6 +46,7 @@ type Agglayer struct {
 	StartLER  common.Hash
 	Entries   []*Entry
 	FailNext  bool
+	FailCall  int // n > 0: the n-th next call fails with a transport error (no effect); counts down
 	Judged    []Judgement
 	Calls     map[string]int
 	OnCall    func(method string) // observer (used to bound VerifInit)
@@ -73,6 +74,13 @@ func (a *Agglayer) enter(method string) error {
 		a.FailNext = false
 		a.trace("agglayer.%s -> injected transport error", method)
 		return errTransport
+	}
+	if a.FailCall > 0 {
+		a.FailCall--
+		if a.FailCall == 0 {
+			a.trace("agglayer.%s -> injected transport error", method)
+			return errTransport
+		}
 	}
 	return nil
 }
